@@ -431,9 +431,15 @@ impl<
             timestamp = timestamp.saturating_add(1);
         }
         let search = self.timestamps().binary_search(&timestamp);
-        let index = match search {
+        let mut index = match search {
             Ok(i) | Err(i) => i.checked_sub(1)?,
         };
+        // Transition times outside of the range we support are clamped, which
+        // can result in multiple transitions with the same time. Make sure
+        // we land on a transition that is strictly before the timestamp given.
+        while index > 0 && self.timestamps()[index] >= timestamp {
+            index -= 1;
+        }
         let index = if index == 0 {
             // The first transition is a dummy that we insert, so if we land on
             // it here, treat it as if it doesn't exist.
@@ -510,10 +516,18 @@ impl<
             ts.as_second()
         };
         let search = self.timestamps().binary_search(&timestamp);
-        let index = match search {
+        let mut index = match search {
             Ok(i) => i.checked_add(1)?,
             Err(i) => i,
         };
+        // Transition times outside of the range we support are clamped, which
+        // can result in multiple transitions with the same time. Make sure
+        // we land on a transition that is strictly after the timestamp given.
+        while index < self.timestamps().len()
+            && self.timestamps()[index] <= timestamp
+        {
+            index += 1;
+        }
         if index == 0 {
             // The first transition is a dummy that we insert, so if we land on
             // it here, treat it as if it doesn't exist.
@@ -522,7 +536,6 @@ impl<
         // TZif data can contain transitions that don't change anything.
         // (`zic` emits them in some cases.) They aren't transitions as far
         // as callers are concerned, so skip over them.
-        let mut index = index;
         while index < self.timestamps().len()
             && self.is_noop_transition(index)
         {
